@@ -107,7 +107,7 @@ add("C02", "model_checking",
 
 add("C09", "model_checking",
     "product exploration: a pool quoted in token0 and its mirror quoted in token1 driven in lock-step by the same operation sequences in base / quote terms on the real UniLpMarket objects; explicit-state DFS with snapshot / restore of both worlds, agreement checked after every step",
-    "8 pool states (price below / one tick outside / one tick inside / inside on and off the spacing grid / above the reference range) x decimals (6,18) and (8,18) x all sequences of <= 2 (thorough: 3) operations of a 60-label alphabet: add by tick / by price / by value on four ranges (in, below, above, wide), remove half / all with and without collect, collect, buy, sell, swap both ways, even_rebalance, remove_all, estimate_amount, estimate_liquidity, get_position_status, get_market_balance, price_to_tick, tick_to_price, and a bar advance with fee accrual. After every step: same accept / reject outcome, returned base / quote amounts, liquidity and fees, wallets, positions (liquidity, pending base / quote) and market value agree to 1e-12 relative; estimate-based helpers and everything downstream of add_liquidity_by_value to 1e-3.",
+    "8 pool states (price below / one tick outside / one tick inside / inside on and off the spacing grid / above the reference range) x decimals (6,18) (thorough: and (8,18)) x all sequences of <= 3 operations (1 boundary / oversized argument; thorough: 2) of a 70-label alphabet: add by tick / by price / by value on four ranges (in, below, above, wide), remove half / all with and without collect, collect (also with per-token limits), deposits at a price exactly on a range end (given as a tick), buy, sell, swap both ways, even_rebalance, remove_all, estimate_amount, estimate_liquidity, get_position_status, get_market_balance, price_to_tick, tick_to_price, and a bar advance with fee accrual. After every step: same accept / reject outcome, returned base / quote amounts, liquidity and fees, wallets, positions (liquidity, pending base / quote) and market value agree to 1e-12 relative; estimate-based helpers and everything downstream of add_liquidity_by_value to 1e-3.",
     "Trusted: the mirror construction in mc/checks/c09.py (ticks negated, range bounds swapped and negated, per-token volumes swapped). Prices exactly on a range bound are excluded (rounding noise decides the side in either orientation).",
     "DESIGN.md §5 C09")
 
